@@ -29,7 +29,9 @@ var c18Types = []reflect.Type{gen.TString, gen.TString, gen.TString, gen.TBool, 
 // strings that matter for URL transport
 var c18UrlStrings = []string{"hello world", "a b c", " lead", "trail ", "a  b", "x+y z", "a&b", "a=b", "p&q=r", "a+b", "100%", "a b", "?x", "#frag", "测试&调", "a%26b", "%41", "a;b", "1+1=2", "x&", "=", "&", "a/b?c", "é=ü", "a;b;c", ";x", "x;", "测;试", "a;;b",
 	// bytes that are not valid UTF-8 (a Latin-1 / GBK form value): the value is what was sent, byte for byte
-	"caf\xe9", "\xd6\xd0", "a\xffb", "\xe9"}
+	"caf\xe9", "\xd6\xd0", "a\xffb", "\xe9",
+	// control characters
+	"ab\tcd", "a\nb", "x\x7f", "\x01"}
 
 func c18Markers(o drive.Out) (set []string, other []string) {
 	if o.Nil || o.Panic != "" {
